@@ -201,14 +201,16 @@ func runC14(c *Ctx) {
 		c.viol("C14.R5", "anchor-lost:InitializeContext", "", "templ.InitializeContext not found")
 	} else {
 		fresh := false
-		ast.Inspect(fd.Body, func(n ast.Node) bool {
-			if ue, ok := n.(*ast.UnaryExpr); ok && ue.Op == token.AND {
-				if _, ok := ue.X.(*ast.CompositeLit); ok {
-					fresh = true
+		for _, ufd := range contextInitUnit(c) {
+			ast.Inspect(ufd.Body, func(n ast.Node) bool {
+				if ue, ok := n.(*ast.UnaryExpr); ok && ue.Op == token.AND {
+					if _, ok := ue.X.(*ast.CompositeLit); ok {
+						fresh = true
+					}
 				}
-			}
-			return true
-		})
+				return true
+			})
+		}
 		c.check(fresh, "C14.R5", funcKey(p, fd)+"|fresh-context-value", c.pos(fd.Pos()), "allocates a new context value when the context has none",
 			"InitializeContext no longer allocates a fresh context value per context")
 	}
